@@ -129,6 +129,14 @@ Theorem C16_resume_safety_any_host : forall plan H C pre rest st off plus replie
   exists s, map (mkd H (c_wrap C) plus) (visible rest) = concat replies ++ s.
 Proof. exact listing_prefix_any_host. Qed.
 
+(* ... while the full statement (sizes only have to hold the next entry) is refuted on such hosts for a
+   second reason, reproduced on the real code over a FUSE mount with cookies above i64::MAX (known
+   finding): the scan re-reads from the start with the client's size and fails with EINVAL on an
+   earlier record that does not fit. *)
+Definition C16_full_any_host : Prop := C16_full_any_host_stmt.
+Theorem C16_refuted_any_host : ~ C16_full_any_host.
+Proof. exact C16_full_any_host_refuted. Qed.
+
 (* PseudoFs (index offsets), also when reached through the VFS *)
 Theorem C16_pseudo_exactly_once : forall sizes pre rest plus,
   N.of_nat (length (pre ++ rest)) < U64_MAX ->
@@ -184,5 +192,6 @@ Print Assumptions C16_plus_refs.
 Print Assumptions C16_fallback_segment_partial.
 Print Assumptions C16_fallback_scan_partial.
 Print Assumptions C16_resume_safety_any_host.
+Print Assumptions C16_refuted_any_host.
 Print Assumptions C16_pseudo_exactly_once.
 Print Assumptions C16_pseudo_size_respected.
